@@ -259,19 +259,25 @@ PROPS["C04"] = {
 }
 
 PROPS["C05"] = {
-    "modules": ["contracts.c14"],
+    "modules": ["contracts.c14", "contracts.sel_gcv", "contracts.rel_smoothers"],
     "contracts": ["hdc/algo/ops/ws2dwcv.py::ws2dwcv@idx", "hdc/algo/ops/ws2dwcv.py::ws2dwcv@idx_robust", "hdc/algo/ops/ws2dwcvp.py::ws2dwcvp@idx",
-                  "hdc/algo/ops/ws2dwcvp.py::ws2dwcvp@idx_robust", "hdc/algo/ops/ws2dwcvp.py::_ws2dwcvp@idx", "hdc/algo/ops/ws2dwcvp.py::_ws2dwcvp@idx_robust"],
+                  "hdc/algo/ops/ws2dwcvp.py::ws2dwcvp@idx_robust", "hdc/algo/ops/ws2dwcvp.py::_ws2dwcvp@idx", "hdc/algo/ops/ws2dwcvp.py::_ws2dwcvp@idx_robust",
+                  "ghost:contracts/ghost_smooth.py::trh_bridge", "ghost:contracts/ghost_smooth.py::wss_bridge",
+                  "hdc/algo/ops/ws2dwcv.py::ws2dwcv@sel", "hdc/algo/ops/ws2dwcvp.py::ws2dwcvp@sel", "hdc/algo/ops/ws2dwcvp.py::_ws2dwcvp@sel",
+                  "hdc/algo/ops/ws2dwcv.py::ws2dwcv@rel", "hdc/algo/ops/ws2dwcvp.py::ws2dwcvp@rel"],
     "standin": True,
     "level": "other",
-    "trusted": ["the core solver (C01) is used by the stand-in's independent GCV recomputation", "np.median as an uninterpreted order statistic in the index contracts"],
-    "not_proved": ["GCV optimality, lopt drawn from 10**srange, band == fixed-lambda smoother at lopt, robust-mode non-degeneracy and placeholder independence: bounded stand-in only",
-                   "the deductive part covers index safety (incl. the robust_gcv table indices), shape agreement of every vectorised expression and every output cell written, for both robust settings"],
-    "assumptions": [],
-    "level_text": "mixed, mostly bounded: deductively (for all inputs) the vectorised GCV kernels keep every subscript, boolean-mask selection, list/table index and element-wise shape in bounds and write band and lopt on every path, with and without robust weighting; the optimality, self-consistency and robust non-degeneracy clauses are decided by a bounded stand-in (independent GCV recomputation; constant / exactly linear / flat-with-spikes / two-level series; placeholder pairs)",
-    "level_note": "index/shape/written obligations proved; value clauses bounded only; Numba faithful (C13)",
-    "technique": "contract-based deductive verification of index/shape/written obligations + bounded run-time evaluation of the selection contract against an independent GCV recomputation",
-    "explanation": "functional contracts for the vectorised GCV loop (lists, medians) are not built; see DESIGN.md",
+    "trusted": ["selection contracts (variant sel, model R, robust=False): pow / cos / sqrt uninterpreted, so 'minimal' is minimality of the real-valued GCV expression; floating-point ties are outside the deductive part",
+                "the core solver enters through the call-site contract ws2d@fn (result named WSI(y, lmda, w, n, i)); np.sum is the recursive spec sum vsum (order of floating-point accumulation not modelled in R)",
+                "the core solver (C01) is used by the stand-in's independent GCV recomputation", "np.median as an uninterpreted order statistic in the index contracts"],
+    "not_proved": ["robust mode (4 rounds, bisquare weights from the residuals of valid cells, non-degeneracy on constant / linear / mostly-flat series, placeholder independence): bounded stand-in only (independent numpy re-statement of the robust scheme)",
+                   "'the band is the fixed-lambda smoother at that lambda' is proved in the form band == round(ws2d(zero-filled y, lopt, validity weights)) resp. the last envelope reweighting step at lopt (the form of ws2dgu / ws2dpgu's contracts, C03); equality with the separately compiled kernels (same number of envelope iterations) is compared by the stand-in",
+                   "floating-point ties of the GCV score"],
+    "assumptions": ["integer-valued input cells (int16 data) for the pass-through clause"],
+    "level_text": "mixed: for robust=False and all inputs (model R, special functions uninterpreted) ws2dwcv, ws2dwcvp and _ws2dwcvp satisfy functional contracts discharged from their real ASTs: every grid value's score is sum (sqrt(w)(y - z))^2 / (sum w (1 - trH / sum w)^2) with z the Whittaker curve at that grid value and trH = sum w / (w + s d^2) (ghost induction lemmas connect np.sum of the vectorised expressions with recursive spec sums); the reported lambda is 10**llas[K] for the first strict minimiser K of the score over the whole grid (or 0 when no score is below the initial 1e15); the band is the rounding of the Whittaker curve at that lambda with the validity weights (asymmetric: last envelope reweighting step); pixels with fewer than 5 valid cells are passed through with lambda 0. Placeholder independence of the non-robust kernels is the relational contract of C02. Index / shape / written obligations for both robust settings as in C14. The robust clauses are decided by the bounded stand-in",
+    "level_note": "non-robust selection (score formula / optimality over the grid / lambda from the grid / band / pass-through / placeholder independence) proved; robust clauses bounded only; Numba faithful (C13)",
+    "technique": "contract-based deductive verification (functional postconditions, loop invariant over the grid scan, ghost induction lemmas for the vectorised sums; relational contract; index/shape/written obligations) + bounded run-time evaluation against an independent GCV / robust recomputation",
+    "explanation": "non-robust GCV selection is a discharged functional contract; the robust re-weighting rounds are outside the subset that the invariants cover and are bounded",
 }
 
 PROPS["C06"] = {
